@@ -64,6 +64,15 @@ package rules
 // TimeBased case first; Wrap in recover()/re-panic form; explicit Unlock instead of defer and
 // `defer func() { cb.lock.Unlock() }()`.
 
+// Robustness pass: fields of CircuitBreaker are resolved by type (stateID / trial counter by
+// use), the transition function by role (stores its State parameter into the state field), the
+// resilience wrapper by role (Wrap of the type embedding the breaker); role comparisons, counter
+// writes and transition sites are searched over the method AND the same-package helpers it
+// reaches, which the engine interprets in place (transitTo stays a summary); knowledge the rules
+// need across a helper call is mirrored into event keys (c08fn.mirror) because re-inlining the
+// same helper makes the engine forget the caller's facts. Checked on /verif/preserving/C08/r1..r4
+// and with mutants applied on top of r2/r3/r4 (/tmp/vw/C08/out/onref.py).
+
 import (
 	"go/ast"
 	"go/constant"
@@ -161,18 +170,7 @@ func c08resolve(c *core.Ctx) *c08env {
 		return nil
 	}
 	ok := true
-	for _, n := range []string{"state", "transitTime", "window", "numberOfCallsInHalfOpen", "stateID", "listener"} {
-		f := structField(c, c08cb, "CircuitBreaker", n)
-		if f == nil {
-			ok = false
-			continue
-		}
-		v.fld[n] = f
-		v.prot[f] = true
-	}
-	if f := structField(c, c08cb, "CircuitBreaker", "policy"); f != nil {
-		v.fld["policy"] = f
-	} else {
+	if !c08resolveFields(v) {
 		ok = false
 	}
 	if st, isStruct := v.cbT.Underlying().(*types.Struct); isStruct {
@@ -228,7 +226,7 @@ func c08resolve(c *core.Ctx) *c08env {
 			ok = false
 		}
 	}
-	for _, n := range []string{"transitTo", "AcquirePermission", "RecordResult"} {
+	for _, n := range []string{"AcquirePermission", "RecordResult"} {
 		o, _, _ := types.LookupFieldOrMethod(types.NewPointer(v.cbT), true, v.pkg.Types, n)
 		if m, isFn := o.(*types.Func); isFn {
 			v.meth[n] = m
@@ -236,6 +234,9 @@ func c08resolve(c *core.Ctx) *c08env {
 			c.Errorf("anchor: method %s.(CircuitBreaker).%s not found", c08cb, n)
 			ok = false
 		}
+	}
+	if ok && !c08resolveRoles(v) {
+		ok = false
 	}
 	for _, n := range []string{"NewCountBasedWindow", "NewTimeBasedWindow"} {
 		if m, isFn := scope.Lookup(n).(*types.Func); isFn {
@@ -249,6 +250,177 @@ func c08resolve(c *core.Ctx) *c08env {
 		return nil
 	}
 	return v
+}
+
+// c08resolveFields resolves the fields of CircuitBreaker by type (the declared name only breaks
+// ties), so that renaming an unexported field does not lose the anchor. The two uint32 fields
+// (stateID, half-open trial counter) are told apart by use in c08resolveRoles.
+func c08resolveFields(v *c08env) bool {
+	c := v.c
+	st, isStruct := v.cbT.Underlying().(*types.Struct)
+	if !isStruct {
+		c.Errorf("anchor: %s.CircuitBreaker is not a struct", c08cb)
+		return false
+	}
+	byType := func(role, typ string) *types.Var {
+		var found []*types.Var
+		for i := 0; i < st.NumFields(); i++ {
+			t := st.Field(i).Type().String()
+			t = strings.ReplaceAll(t, Mod+c08cb+".", "")
+			if t == typ {
+				found = append(found, st.Field(i))
+			}
+		}
+		if len(found) > 1 {
+			for _, f := range found {
+				if f.Name() == role {
+					return f
+				}
+			}
+		}
+		if len(found) != 1 {
+			c.Errorf("anchor: CircuitBreaker has %d fields of type %s (role %s), expected one", len(found), typ, role)
+			return nil
+		}
+		return found[0]
+	}
+	ok := true
+	for _, rt := range [][2]string{{"state", "State"}, {"transitTime", "time.Time"}, {"window", "Window"}, {"listener", "EventListenerFunc"}, {"policy", "*Policy"}} {
+		f := byType(rt[0], rt[1])
+		if f == nil {
+			ok = false
+			continue
+		}
+		v.fld[rt[0]] = f
+		if rt[0] != "policy" {
+			v.prot[f] = true
+		}
+	}
+	return ok
+}
+
+// c08resolveRoles resolves stateID (the uint32 field RecordResult compares with a parameter),
+// the half-open trial counter (the uint32 field compared with Policy.PermittedNumberOfCallsInHalfOpen)
+// and the transition function (the method that stores its State parameter into the state field).
+func c08resolveRoles(v *c08env) bool {
+	c := v.c
+	st := v.cbT.Underlying().(*types.Struct)
+	info := v.pkg.TypesInfo
+	isU32 := func(f *types.Var) bool {
+		b, ok := f.Type().Underlying().(*types.Basic)
+		return ok && b.Kind() == types.Uint32
+	}
+	u32 := map[*types.Var]bool{}
+	for i := 0; i < st.NumFields(); i++ {
+		if isU32(st.Field(i)) {
+			u32[st.Field(i)] = true
+		}
+	}
+	fieldOf := func(e ast.Expr) *types.Var {
+		if sel, ok := ast.Unparen(e).(*ast.SelectorExpr); ok {
+			if s := info.Selections[sel]; s != nil && s.Kind() == types.FieldVal {
+				fv, _ := s.Obj().(*types.Var)
+				return fv
+			}
+		}
+		return nil
+	}
+	idCand, ctrCand := map[*types.Var]bool{}, map[*types.Var]bool{}
+	var transit []*types.Func
+	var transitByName *types.Func
+	for _, file := range v.pkg.Syntax {
+		for _, d := range file.Decls {
+			fd, ok := d.(*ast.FuncDecl)
+			if !ok || fd.Body == nil {
+				continue
+			}
+			fo, _ := info.Defs[fd.Name].(*types.Func)
+			params := map[types.Object]bool{}
+			if fd.Type.Params != nil {
+				for _, fl := range fd.Type.Params.List {
+					for _, n := range fl.Names {
+						params[info.Defs[n]] = true
+					}
+				}
+			}
+			isParam := func(e ast.Expr) bool {
+				id, ok := ast.Unparen(e).(*ast.Ident)
+				return ok && params[info.Uses[id]]
+			}
+			ast.Inspect(fd.Body, func(n ast.Node) bool {
+				switch x := n.(type) {
+				case *ast.BinaryExpr:
+					if !c08isCmpOp(x.Op, true) {
+						return true
+					}
+					for _, p := range [][2]ast.Expr{{x.X, x.Y}, {x.Y, x.X}} {
+						f := fieldOf(p[0])
+						if f == nil || !u32[f] {
+							continue
+						}
+						if fo == v.meth["RecordResult"] && isParam(p[1]) && (x.Op == token.EQL || x.Op == token.NEQ) {
+							idCand[f] = true
+						}
+						if fieldOf(p[1]) == v.pol["PermittedNumberOfCallsInHalfOpen"] {
+							ctrCand[f] = true
+						}
+					}
+				case *ast.AssignStmt:
+					for i, l := range x.Lhs {
+						if fieldOf(l) == v.fld["state"] && len(x.Lhs) == len(x.Rhs) && isParam(x.Rhs[i]) && fo != nil {
+							if len(transit) == 0 || transit[len(transit)-1] != fo {
+								transit = append(transit, fo)
+							}
+							if fo.Name() == "transitTo" {
+								transitByName = fo
+							}
+						}
+					}
+				}
+				return true
+			})
+		}
+	}
+	pick := func(role string, cand map[*types.Var]bool) *types.Var {
+		for i := 0; i < st.NumFields(); i++ {
+			if f := st.Field(i); f.Name() == role && u32[f] {
+				return f // the declared name still exists: no ambiguity to resolve
+			}
+		}
+		var out *types.Var
+		for f := range cand {
+			if out != nil {
+				c.Errorf("anchor: role %s of CircuitBreaker is played by more than one uint32 field", role)
+				return nil
+			}
+			out = f
+		}
+		if out == nil {
+			c.Errorf("anchor: no uint32 field of CircuitBreaker plays the role %s", role)
+		}
+		return out
+	}
+	id := pick("stateID", idCand)
+	ctr := pick("numberOfCallsInHalfOpen", ctrCand)
+	if id == nil || ctr == nil {
+		return false
+	}
+	if id == ctr {
+		c.Errorf("anchor: stateID and the half-open trial counter resolve to the same field %s", id.Name())
+		return false
+	}
+	v.fld["stateID"], v.fld["numberOfCallsInHalfOpen"] = id, ctr
+	v.prot[id], v.prot[ctr] = true, true
+	switch {
+	case transitByName != nil:
+		v.meth["transitTo"] = transitByName
+	case len(transit) == 1:
+		v.meth["transitTo"] = transit[0]
+	default:
+		c.Errorf("anchor: %d functions of %s store a State parameter into CircuitBreaker.state; cannot tell which one is the transition function", len(transit), c08cb)
+		return false
+	}
+	return true
 }
 
 // ---------------------------------------------------------------------------------------
@@ -397,7 +569,20 @@ func c08isCmpOp(op token.Token, withEq bool) bool {
 
 // c08findCmps lists the comparisons in body one side of which satisfies a and the other b.
 func c08findCmps(body ast.Node, withEq bool, a, b func(ast.Expr) bool) []c08cmp {
+	return c08findCmpsIn([]ast.Node{body}, withEq, a, b)
+}
+
+func c08findCmpsIn(bodies []ast.Node, withEq bool, a, b func(ast.Expr) bool) []c08cmp {
 	var out []c08cmp
+	for _, body := range bodies {
+		c08findCmps1(body, withEq, a, b, &out)
+	}
+	return out
+}
+
+func c08findCmps1(body ast.Node, withEq bool, a, b func(ast.Expr) bool, res *[]c08cmp) {
+	var out []c08cmp
+	defer func() { *res = append(*res, out...) }()
 	ast.Inspect(body, func(n ast.Node) bool {
 		be, ok := n.(*ast.BinaryExpr)
 		if !ok || !c08isCmpOp(be.Op, withEq) {
@@ -411,7 +596,6 @@ func c08findCmps(body ast.Node, withEq bool, a, b func(ast.Expr) bool) []c08cmp 
 		}
 		return true
 	})
-	return out
 }
 
 // c08rel is what a state knows about role A against role B.
